@@ -20,6 +20,8 @@ import (
 	"testing/synctest"
 	"time"
 
+	tls "github.com/refraction-networking/utls"
+
 	"github.com/refraction-networking/uquic/internal/qerr"
 	"github.com/refraction-networking/uquic/internal/vtrace"
 )
@@ -90,7 +92,9 @@ func (td *vfTD) call(side, kind string, f func() error) {
 		_, still := td.pending[id]
 		delete(td.pending, id)
 		td.mu.Unlock()
-		if still && err == nil { // the call was not blocked after all (e.g. the peer's fingerprint allows more streams): not a teardown event
+		if still && err == nil && strings.HasPrefix(kind, "late_") { // a call made after the end must fail with the cause
+			td.r.add(vtrace.Op{"ev": "Returned", "id": id, "side": side, "kind": kind, "class": "ok:" + kind, "ok": true, "at": td.ms(), "late": true, "dt": td.ms() - t0})
+		} else if still && err == nil { // the call was not blocked after all (e.g. the peer's fingerprint allows more streams): not a teardown event
 			td.r.add(vtrace.Op{"ev": "Unblocked", "id": id, "side": side, "kind": kind})
 		} else if still {
 			td.r.add(vtrace.Op{"ev": "Returned", "id": id, "side": side, "kind": kind, "class": vfErrClass17(err), "at": td.ms(),
@@ -159,7 +163,22 @@ func vfRunTeardown(c vtrace.Case, rec *vtrace.Rec) {
 		idleDur = 60 * time.Second
 	}
 	cause, cside := c.Cfg.Str("cause"), c.Cfg.Str("side")
-	r.add(vtrace.Op{"ev": "Start", "idle": idle, "ka": c.Cfg.Int("keepalive") > 0})
+	// the two sides may be configured differently, and a fingerprint client may advertise no max_idle_timeout at all
+	mul := func(k string) time.Duration {
+		if m := c.Cfg.Int(k); m > 1 {
+			return time.Duration(m)
+		}
+		return 1
+	}
+	cIdle, sIdle := idleDur*mul("cmul"), idleDur*mul("smul")
+	fingerprint := c.Cfg.Str("client") != "plain"
+	omit := fingerprint && c.Cfg.Bool("omitidle")
+	cAdv := int(cIdle / time.Millisecond)
+	if omit {
+		cAdv = 0
+	} else if fingerprint {
+		cAdv = -1 // whatever the fingerprint says: read from the spec below
+	}
 	net.TapDeliver = func(ev vtrace.NetEvent) {
 		side := "s"
 		if ev.Dir == "s2c" {
@@ -180,8 +199,8 @@ func vfRunTeardown(c vtrace.Case, rec *vtrace.Rec) {
 	key := StatelessResetKey{1, 2, 3}
 	str := &Transport{Conn: sconn, StatelessResetKey: &key}
 	ctr := &Transport{Conn: cconn}
-	sconf := &Config{MaxIdleTimeout: idleDur, MaxIncomingStreams: 1, MaxIncomingUniStreams: 1, EnableDatagrams: true, HandshakeIdleTimeout: 400 * time.Millisecond}
-	cconf := &Config{MaxIdleTimeout: idleDur, MaxIncomingStreams: 1, MaxIncomingUniStreams: 1, EnableDatagrams: true, HandshakeIdleTimeout: 400 * time.Millisecond}
+	sconf := &Config{MaxIdleTimeout: sIdle, MaxIncomingStreams: 1, MaxIncomingUniStreams: 1, EnableDatagrams: true, HandshakeIdleTimeout: 400 * time.Millisecond}
+	cconf := &Config{MaxIdleTimeout: cIdle, MaxIncomingStreams: 1, MaxIncomingUniStreams: 1, EnableDatagrams: true, HandshakeIdleTimeout: 400 * time.Millisecond}
 	if ka := c.Cfg.Int("keepalive"); ka > 0 {
 		cconf.KeepAlivePeriod = time.Duration(ka) * time.Millisecond
 	}
@@ -192,13 +211,31 @@ func vfRunTeardown(c vtrace.Case, rec *vtrace.Rec) {
 	endCtx, endCancel := context.WithCancel(context.Background())
 	td.release = append(td.release, endCancel)
 	ctls := vtrace.ClientTLS()
-	dial := func(ctx context.Context) (*Conn, error) {
-		if c.Cfg.Str("client") == "plain" {
-			return ctr.Dial(ctx, vtrace.ServerAddr, ctls, cconf)
-		}
-		sp, err := QUICID2Spec(vsQUICIDs[c.Cfg.Str("client")])
-		if err != nil {
+	var sp QUICSpec
+	if fingerprint {
+		var err error
+		if sp, err = QUICID2Spec(vsQUICIDs[c.Cfg.Str("client")]); err != nil {
 			panic(err)
+		}
+		if omit {
+			sp.SuppressTransportParameters = append(sp.SuppressTransportParameters, 0x01) // max_idle_timeout
+		} else {
+			cAdv = 0
+			if q := vsFindQTP(&sp); q != nil {
+				for _, p := range q.TransportParameters {
+					if m, ok := p.(tls.MaxIdleTimeout); ok {
+						cAdv = int(m)
+					}
+				}
+			}
+		}
+	}
+	r.add(vtrace.Op{"ev": "Start", "ka": c.Cfg.Int("keepalive") > 0,
+		"conf": map[string]int{"c": int(cIdle / time.Millisecond), "s": int(sIdle / time.Millisecond)},
+		"adv":  map[string]int{"c": cAdv, "s": int(sIdle / time.Millisecond)}})
+	dial := func(ctx context.Context) (*Conn, error) {
+		if !fingerprint {
+			return ctr.Dial(ctx, vtrace.ServerAddr, ctls, cconf)
 		}
 		return (&UTransport{Transport: ctr, QUICSpec: &sp}).Dial(ctx, vtrace.ServerAddr, ctls, cconf)
 	}
@@ -240,6 +277,10 @@ func vfRunTeardown(c vtrace.Case, rec *vtrace.Rec) {
 		go func() {
 			<-cn.Context().Done()
 			cls := vfErrClass17(context.Cause(cn.Context()))
+			if vtrace.Env("VERIF_DEBUG", "") != "" {
+				time.Sleep(time.Millisecond)
+				r.add(vtrace.Op{"ev": "Note", "msg": fmt.Sprintf("DEBUG %s lastRecv=%v firstAE=%v created=%v idle=%v pto=%v", side, cn.lastPacketReceivedTime.Sub(cn.creationTime), cn.firstAckElicitingPacketAfterIdleSentTime.Sub(cn.creationTime), cn.creationTime, cn.idleTimeout, cn.rttStats.PTO(true))})
+			}
 			if !harnessCause() {
 				r.add(vtrace.Op{"ev": "Cause", "side": side, "kind": "observed", "class": cls, "at": td.ms()})
 			}
@@ -315,12 +356,27 @@ func vfRunTeardown(c vtrace.Case, rec *vtrace.Rec) {
 		r.add(vtrace.Op{"ev": "Cause", "side": side, "kind": kind, "class": class, "at": at})
 	}
 	time.Sleep(time.Duration(c.Cfg.Int("settle")) * time.Millisecond)
+	if vtrace.Env("VERIF_DEBUG", "") != "" {
+		r.add(vtrace.Op{"ev": "Note", "msg": fmt.Sprintf("DEBUG idle c=%v s=%v peer(c)=%v peer(s)=%v", cc.idleTimeout, sc.idleTimeout, cc.peerParams != nil, sc.peerParams.MaxIdleTimeout)})
+	}
 	var calls = map[string][]string{}
 	for _, o := range c.Ops {
 		calls[o.Str("side")] = append(calls[o.Str("side")], o.Str("call"))
 	}
 	td.startCalls("c", cc, calls["c"], endCtx)
 	td.startCalls("s", sc, calls["s"], endCtx)
+	if c.Cfg.Bool("backlog") { // datagrams nobody reads before the end: what does a ReceiveDatagram made after the end return?
+		for side, cn := range map[string]*Conn{"c": cc, "s": sc} {
+			reads := false
+			for _, k := range calls[map[string]string{"c": "s", "s": "c"}[side]] {
+				reads = reads || k == "recvdgram"
+			}
+			if !reads {
+				cn.SendDatagram(make([]byte, 100))
+				cn.SendDatagram(make([]byte, 100))
+			}
+		}
+	}
 	time.Sleep(40 * time.Millisecond)
 	synctest.Wait()
 
@@ -338,7 +394,7 @@ func vfRunTeardown(c vtrace.Case, rec *vtrace.Rec) {
 	case "idle":
 		net.SetFaults([]vtrace.Fault{{Dir: "both", Kind: "blackout", At: td.ms(), Dur: 600000}})
 		if c.Cfg.Bool("writer") { // the application keeps sending into the void
-			stop := time.Now().Add(idleDur * 3)
+			stop := time.Now().Add(max(cIdle, sIdle) * 3)
 			go func() {
 				for time.Now().Before(stop) && cc.Context().Err() == nil {
 					cc.SendDatagram(make([]byte, 100))
@@ -346,9 +402,9 @@ func vfRunTeardown(c vtrace.Case, rec *vtrace.Rec) {
 				}
 			}()
 		}
-		time.Sleep(idleDur*3 + time.Second)
+		time.Sleep(max(cIdle, sIdle)*3 + time.Second)
 	case "keepalive":
-		time.Sleep(idleDur * 4)
+		time.Sleep(max(cIdle, sIdle) * 4)
 		setCause(other, "remote_close", "app:42:remote", td.ms()+5)
 		setCause(cside, "local_close", "app:42:local", td.ms())
 		conns[cside].CloseWithError(42, "bye")
@@ -377,6 +433,10 @@ func vfRunTeardown(c vtrace.Case, rec *vtrace.Rec) {
 		cn := cn
 		td.call(side, "late_open", func() error { _, err := cn.OpenStreamSync(endCtx); return err })
 		td.call(side, "late_accept", func() error { _, err := cn.AcceptStream(endCtx); return err })
+		td.call(side, "late_acceptuni", func() error { _, err := cn.AcceptUniStream(endCtx); return err })
+		td.call(side, "late_openuni", func() error { _, err := cn.OpenUniStreamSync(endCtx); return err })
+		td.call(side, "late_senddgram", func() error { return cn.SendDatagram([]byte("late")) })
+		td.call(side, "late_recvdgram", func() error { _, err := cn.ReceiveDatagram(endCtx); return err })
 	}
 	time.Sleep(50 * time.Millisecond)
 	// a side the cause never reached (peer not informed, by design of the scenario) is closed by its application now
